@@ -22,6 +22,8 @@ import DimModel.Lib.InterpLike
 import DimModel.Driver.ExtRed
 import DimModel.Driver.ExtCache
 import DimModel.Driver.ExtMulti
+import DimModel.Driver.ExtSel
+import DimModel.Lib.DatasetCtor
 import DimModel.Driver.ExtC14Ops
 import DimModel.Driver.ExtC14Ops3
 open Lean
@@ -510,8 +512,27 @@ def handle (op : String) (req : Json) : P (List (String × Json)) := do
       | "interp_like" => DSV.interpLikeDs (fun a b w => Cell.lin a b w) ds tmpl Cell.fill Cell.fill2
       | _ => match dsOpExt3 fn req with | .ok (some g) => g ds others | _ => .error .other
     pure [("lib", encExcept encDs r)]
+  | "ds_ctor_history" => do
+    -- C13: Dataset(<arrays with differing labels>) - the MODEL aligns (DS.construct = Lib.align, then setVar one by one) -
+    -- followed by a history; the first `keys.length` entries of "lib" are the constructor's assignments
+    let as ← arrays req
+    let keys ← listOf str (← fld req "keys")
+    let ops ← listOf dsOp (← fld req "ops")
+    match Lib.align Cell.nan as .outer none false false with
+    | .error e => pure [("lib", Json.arr (keys.map fun _ => encDS DS.init (.error e)).toArray), ("ctor_state", Json.null)]
+    | .ok vals =>
+      let mut st := DS.init
+      let mut out : List Json := []
+      for op in DS.ctorOps keys vals ++ ops do
+        let (st', res) := DS.step st op
+        st := st'
+        out := out ++ [encDS st res]
+      pure [("lib", Json.arr out.toArray),
+            ("ctor_state", match DS.construct Cell.nan keys as with
+              | .ok (_, s) => encDS s (.ok ())
+              | .error e => Json.mkObj [("err", encErr e)])]
   | "redx" => handleRedX req
-  | _ => match (handleCache op req).orElse (fun _ => handleMulti op req) with | some r => r | none => throw s!"unknown op {op}"
+  | _ => match ((handleCache op req).orElse (fun _ => handleMulti op req)).orElse (fun _ => handleSel op req) with | some r => r | none => throw s!"unknown op {op}"
 
 def answer (line : String) : String :=
   match Json.parse line with
